@@ -422,8 +422,104 @@ def _propagate_self_aliases(fn: ast.FunctionDef) -> int:
     return done
 
 
+def _has_walrus(e: ast.AST) -> bool:
+    return any(isinstance(n, ast.NamedExpr) for n in ast.walk(e))
+
+
+def _always_leaves(stmts: list[ast.stmt]) -> bool:
+    return bool(stmts) and isinstance(stmts[-1], (ast.Raise, ast.Return, ast.Break, ast.Continue))
+
+
+def _hoistable_walrus(e: ast.AST) -> list[ast.NamedExpr]:
+    """Assignment expressions evaluated exactly once, unconditionally, whenever `e` is evaluated."""
+    out: list[ast.NamedExpr] = []
+
+    def walk(n: ast.AST):
+        if isinstance(n, (ast.Lambda, ast.ListComp, ast.SetComp, ast.DictComp, ast.GeneratorExp)):
+            return
+        if isinstance(n, ast.IfExp):
+            walk(n.test)
+            return
+        if isinstance(n, ast.BoolOp):
+            walk(n.values[0])
+            return
+        if isinstance(n, ast.Compare) and len(n.ops) > 1:
+            walk(n.left)
+            walk(n.comparators[0])
+            return
+        for c in ast.iter_child_nodes(n):
+            walk(c)
+        if isinstance(n, ast.NamedExpr) and isinstance(n.target, ast.Name):
+            out.append(n)
+    walk(e)
+    return out
+
+
+def _desugar_walrus(stmts: list[ast.stmt]) -> list[ast.stmt]:
+    """`if (x := f()) is None: ...` is `x = f()` followed by `if x is None: ...`; `if a or (x := f()) in S: leave` is two
+    guards; `while (k := f()) != end:` is `while True: k = f(); if not (k != end): break`.  Only where the assignment
+    expression is evaluated exactly once per evaluation of the statement; anything else is left as written."""
+    out: list[ast.stmt] = []
+    for st in stmts:
+        for field in ("body", "orelse", "finalbody"):
+            sub = getattr(st, field, None)
+            if isinstance(sub, list) and sub and isinstance(sub[0], ast.stmt) and not isinstance(st, (ast.FunctionDef, ast.ClassDef)):
+                setattr(st, field, _desugar_walrus(sub))
+        if isinstance(st, ast.Try):
+            for h in st.handlers:
+                h.body = _desugar_walrus(h.body)
+        if isinstance(st, ast.If) and isinstance(st.test, ast.BoolOp) and isinstance(st.test.op, ast.Or) and _has_walrus(st.test) \
+                and _always_leaves(st.body) and not st.orelse:
+            # every operand guards the same leaving body: one `if` per operand
+            chain = []
+            for v in st.test.values:
+                chain.append(ast.copy_location(ast.If(test=v, body=copy.deepcopy(st.body), orelse=[]), st))
+            out.extend(_desugar_walrus(chain))
+            continue
+        if isinstance(st, ast.While) and _has_walrus(st.test) and not st.orelse:
+            w = _hoistable_walrus(st.test)
+            if len(w) == len([n for n in ast.walk(st.test) if isinstance(n, ast.NamedExpr)]):
+                pre = [ast.copy_location(ast.Assign(targets=[ast.Name(id=n.target.id, ctx=ast.Store())], value=n.value), st) for n in w]
+                test = st.test
+                for n in w:
+                    _replace_in(st, "test", n, ast.copy_location(ast.Name(id=n.target.id, ctx=ast.Load()), n))
+                test = st.test
+                brk = ast.copy_location(ast.If(test=ast.UnaryOp(op=ast.Not(), operand=test), body=[ast.Break()], orelse=[]), st)
+                new = ast.copy_location(ast.While(test=ast.Constant(value=True), body=pre + [brk] + st.body, orelse=[]), st)
+                out.append(ast.fix_missing_locations(new))
+                continue
+        roots = []
+        if isinstance(st, ast.If):
+            roots = [("test", st.test)]
+        elif isinstance(st, (ast.Assign, ast.AugAssign, ast.Return, ast.Expr, ast.AnnAssign)) and getattr(st, "value", None) is not None:
+            roots = [("value", st.value)]
+        done = False
+        for field, e in roots:
+            w = _hoistable_walrus(e)
+            if w and len(w) == len([n for n in ast.walk(e) if isinstance(n, ast.NamedExpr)]):
+                for n in w:
+                    out.append(ast.fix_missing_locations(ast.copy_location(
+                        ast.Assign(targets=[ast.Name(id=n.target.id, ctx=ast.Store())], value=n.value), st)))
+                    _replace_in(st, field, n, ast.copy_location(ast.Name(id=n.target.id, ctx=ast.Load()), n))
+                done = True
+        out.append(st)
+    return out
+
+
+def _replace_in(st: ast.AST, field: str, old: ast.AST, new: ast.AST) -> None:
+    if getattr(st, field) is old:
+        setattr(st, field, new)
+        return
+    _replace(getattr(st, field), old, new)
+
+
 def apply(tree: ast.Module) -> list[str]:
     """Dissolve transparent helpers of `tree` into their callers (in place). -> names inlined (one per call site)."""
+    if _has_walrus(tree):
+        for n in ast.walk(tree):
+            if isinstance(n, ast.FunctionDef):
+                n.body = _desugar_walrus(n.body)
+        ast.fix_missing_locations(tree)
     inl = _Inliner(tree)
     inl.run()
     aliases = 0
